@@ -12,7 +12,7 @@
      good c               0 < B and 0 < alpha ;  goodP c = good c and 0 <= P
    No assumption anywhere on the sign of the dispersion, on channel spacing/overlap, or on the fibre length. *)
 From Coq Require Import Reals Lra List Permutation.
-From Verif Require Import Prelude Num Model.GN Proofs.GN.
+From Verif Require Import Prelude Num Model.GN Proofs.GN Gen.GNGen Proofs.GNGen.
 Import ListNotations.
 Open Scope R_scope.
 
@@ -89,6 +89,67 @@ Theorem C03_perm : forall (fb : fiberR) l l' v, Permutation l l' -> fiber_nli fb
   exists v', fiber_nli fb l' = Ok v' /\ Permutation (combine l v) (combine l' v').
 Proof. exact fiber_nli_perm. Qed.
 Print Assumptions C03_perm.
+
+(* ---- second tie (translator): the fragments below are re-translated from /repo's source on every run
+        (harness/pygen_c03.py -> Gen/GNGen.v) and proved equal to the hand-written model, for every number structure N ---- *)
+(* entry [cut i, pump j] of nli_matrix: compute_nli, _gn_analytic (weights, eta), _psi (kernel, which index is cut and
+   which is pump), effective and asymptotic length of the pump *)
+Theorem C03_source_matrix_entry : forall (N : Num) (len : NT N) (ci cj : @pch N) b,
+  term len ci cj b =
+  g_term ci cj (g_eta ci cj b (g_psi ci cj (g_asymptotic_length (p_alpha cj)) (g_effective_length (p_alpha cj) len))).
+Proof. exact @gen_entry. Qed.
+Print Assumptions C03_source_matrix_entry.
+Theorem C03_source_weight : forall (N : Num) b, @g_weight N b = weight b.
+Proof. exact @gen_weight. Qed.
+Print Assumptions C03_source_weight.
+Theorem C03_source_psi : forall (N : Num) (len : NT N) (ci cj : @pch N),
+  psi len ci cj = g_psi ci cj (g_asymptotic_length (p_alpha cj)) (g_effective_length (p_alpha cj) len).
+Proof. exact @gen_psi. Qed.
+Print Assumptions C03_source_psi.
+(* Fiber.alpha / loss scaling, Fiber.beta2 (no slope, slope, one-row table), reference wavelength and frequency *)
+Theorem C03_source_alpha : forall (N : Num) (fb : @fiber N) f, alpha fb f = (let* lc := loss_coef fb f in Ok (g_alpha lc)).
+Proof. exact @gen_alpha. Qed.
+Print Assumptions C03_source_alpha.
+Theorem C03_source_loss_scalar : forall (N : Num) (fb : @fiber N) v f, fb_loss fb = LossScalar v -> loss_coef fb f = Ok (g_loss_scale v).
+Proof. exact @gen_loss_scalar. Qed.
+Print Assumptions C03_source_loss_scalar.
+Theorem C03_source_beta2 : forall (N : Num) (fb : @fiber N) f,
+  match fb_disp fb with
+  | DispDefault => beta2 fb f = Ok (g_beta2 f (g_disp_noslope f (ref_frequency fb) g_default_dispersion))
+  | DispScalar d => beta2 fb f = Ok (g_beta2 f (g_disp_noslope f (ref_frequency fb) d))
+  | DispSlope d s => beta2 fb f = Ok (g_beta2 f (g_disp_slope f (ref_frequency fb) d s))
+  | DispTable [f0] [d] => beta2 fb f = Ok (g_beta2 f (g_disp_noslope f f0 d))
+  | DispTable _ _ => True
+  end.
+Proof. exact @gen_beta2. Qed.
+Print Assumptions C03_source_beta2.
+Theorem C03_source_ref : forall (N : Num) (fb : @fiber N),
+  match fb_ref fb with
+  | RefDefault => ref_wavelength fb = g_default_ref_wavelength /\ ref_frequency fb = g_default_ref_frequency
+  | RefWavelength w => ref_wavelength fb = w /\ ref_frequency fb = g_ref_frequency_of_wavelength w
+  | RefFrequency f => ref_frequency fb = f /\ ref_wavelength fb = g_ref_wavelength_of_frequency f
+  end.
+Proof. exact @gen_ref. Qed.
+Print Assumptions C03_source_ref.
+(* effective area / gamma defaulting, contrast, frequency scaling of effective area and gamma *)
+Theorem C03_source_area : forall (N : Num) (fb : @fiber N),
+  effective_area fb = match fb_area fb with
+                      | AreaDefault => g_default_area
+                      | AreaGiven a => a
+                      | GammaGiven g => g_area_from_gamma (ref_wavelength fb) g
+                      end.
+Proof. exact @gen_area. Qed.
+Print Assumptions C03_source_area.
+Theorem C03_source_gamma : forall (N : Num) (fb : @fiber N) f,
+  contrast fb = g_contrast (ref_frequency fb) (effective_area fb) /\
+  effective_area_scaling fb f = g_effective_area_scaling (contrast fb) f /\
+  gamma_scaling fb f = g_gamma_scaling (effective_area_scaling fb f) f.
+Proof. exact @gen_gamma. Qed.
+Print Assumptions C03_source_gamma.
+(* Fiber.propagate / RamanFiber.propagate: con_in + att_in applied (apply_attenuation_db) before the NLI is computed *)
+Theorem C03_source_att_in : forall (N : Num) (fb : @fiber N), att_in_lin fb = g_att_lin (g_att_in_db (fb_con_in fb) (fb_att_in fb)).
+Proof. exact @gen_att_in. Qed.
+Print Assumptions C03_source_att_in.
 
 (* ---- non-vacuity: a concrete 80 km span and a 3-channel mixed comb satisfy every hypothesis used above *)
 Definition ex_fb : fiberR :=
